@@ -84,7 +84,7 @@ func plans(id, tier string) (Plan, bool) {
 			{Pkg: pkgV2, Harness: "c03_small", Params: fmt.Sprintf("replace=yes;maxlen=%d", pick(4, 6)), Shards: pick(4, 16)},
 			{Pkg: pkgV2, Harness: "c03_corpus", Params: "t=0.8", Shards: pick(10, 16)},
 			{Pkg: pkgV2, Harness: "c03_corpus", Params: "t=0.8;families=window;split=4", Shards: 16},
-			{Pkg: pkgV2, Harness: "c03_corpus", Params: "t=0.5;families=" + map[bool]string{false: "exact", true: "exact,edit1,scenario;ndocs=6"}[th], Shards: pick(6, 16)},
+			{Pkg: pkgV2, Harness: "c03_corpus", Params: "t=0.5;families=" + map[bool]string{false: "exact", true: "exact,scenario;ndocs=12"}[th], Shards: pick(6, 16)},
 			{Pkg: pkgV2, Harness: "c03_corpus", Params: "t=0.8;families=selfrepeat;ndocs=" + fmt.Sprint(pick(120, 431)), Shards: 16},
 			{Pkg: pkgV2, Harness: "c03_corpus", Params: "t=0.8;families=deeplines,wordset;split=3;ndocs=" + fmt.Sprint(pick(100, 431)), Shards: 16},
 			{Pkg: pkgV2, Harness: "c03_corpus", Params: "t=0.8;trace=all;families=concat,scenario,edit1,periodic;ndocs=" + fmt.Sprint(pick(24, 120)), Shards: 16},
@@ -304,6 +304,9 @@ func plans(id, tier string) (Plan, bool) {
 		// a registered value of more than 64 KiB that is also the query
 		jobs = append(jobs, Job{Pkg: pkgSC, Harness: "c14_sched", Instr: "v1", Params: fmt.Sprintf("scenario=17;values=1;valuebytes=66000;policy=delay;budget=%d", pick(1, 2)), Shards: pick(2, 8)})
 		jobs = append(jobs, Job{Pkg: pkgSC, Harness: "c14_sched", Instr: "v1", Params: "scenario=18;values=1;valuebytes=66000;policy=delay;budget=1", Shards: pick(2, 8)})
+		// a 4.6 KB value added while a query runs
+		jobs = append(jobs, Job{Pkg: pkgSC, Harness: "c14_sched", Instr: "v1", Params: fmt.Sprintf("scenario=19;policy=delay;budget=%d", pick(2, 4)), Shards: pick(2, 8)})
+		jobs = append(jobs, Job{Pkg: pkgSC, Harness: "c14_sched", Instr: "v1", Params: fmt.Sprintf("scenario=20;policy=delay;budget=%d", pick(1, 3)), Shards: pick(2, 8)})
 		// values that are not valid UTF-8
 		jobs = append(jobs, Job{Pkg: pkgSC, Harness: "c14_sched", Instr: "v1", Params: fmt.Sprintf("scenario=15;policy=delay;budget=%d", pick(2, 4)), Shards: pick(2, 8)})
 		jobs = append(jobs, Job{Pkg: pkgSC, Harness: "c14_sched", Instr: "v1", Params: fmt.Sprintf("scenario=16;policy=delay;budget=%d", pick(2, 3)), Shards: pick(2, 8)})
@@ -325,7 +328,7 @@ func plans(id, tier string) (Plan, bool) {
 	case "C16":
 		return Plan{Level: "exploration", Jobs: []Job{
 			{Pkg: pkgExtV1, Harness: "c16_corpus", Instr: "v1", Shards: 16},
-			{Pkg: pkgExtV1, Harness: "c16_threshold", Instr: "v1", Shards: pick(8, 16)},
+			{Pkg: pkgExtV1, Harness: "c16_threshold", Instr: "v1", Shards: 16},
 		}}, true
 	case "C17":
 		return Plan{Level: "exploration", Jobs: []Job{
